@@ -129,7 +129,7 @@ def check_text(text: str, surrogate: bool = False):
         with cpu_limit(10):
             back = sl.LDAPFilter.from_string(s)
         obs["accepted-reparsed"] = 1
-        if back != got:
+        if av.differs(back, got):
             from vf.props.c13 import collapse_dn
 
             if av.a_filter(back) == collapse_dn(av.a_filter(got)):
